@@ -2566,11 +2566,44 @@ func t2c02AlgoNames(c *Ctx) {
 	if lookup != nil && lookup.OK != nil {
 		val, okv := lookup.Val, lookup.OK
 		good, n := okv != nil && val != nil, 0
-		for _, r := range liveReturns(lit) {
-			if v, known := lf.KnownBool(r.Block(), okv); known && v {
-				n++
-				if len(r.Results) != 2 || w.canon(lit, r.Results[0]) != val || !isNilConst(w.canon(lit, r.Results[1])) {
-					good = false
+		home := lookup.Instr.Parent()
+		if home != lit && home.Parent() == nil && len(w.sitesIn(lit, home)) == 1 && errorResultIndex(home) == 1 {
+			// the lookup sits in a parsing helper (value, error): a hit makes the helper return the value with a nil error,
+			// and the hook hands that value on with a nil error whenever the helper succeeded
+			hf := w.factsOf(home)
+			for _, r := range liveReturns(home) {
+				if v, known := hf.KnownBool(r.Block(), okv); known && v {
+					n++
+					if len(r.Results) != 2 || throughCell(strip(r.Results[0])) != val || !isNilConst(strip(r.Results[1])) {
+						good = false
+					}
+				}
+			}
+			site, _ := w.sitesIn(lit, home)[0].(*ssa.Call)
+			nUp := 0
+			if site == nil {
+				good = false
+			} else {
+				hv, he := extractOf(site, 0), extractOf(site, 1)
+				for _, r := range liveReturns(lit) {
+					if isNil, known := lf.KnownNil(r.Block(), he); known && isNil && InstrDominates(site, r) {
+						nUp++
+						if len(r.Results) != 2 || throughCell(strip(r.Results[0])) != hv || !isNilConst(strip(r.Results[1])) {
+							good = false
+						}
+					}
+				}
+			}
+			if nUp == 0 {
+				good = false
+			}
+		} else {
+			for _, r := range liveReturns(lit) {
+				if v, known := lf.KnownBool(r.Block(), okv); known && v {
+					n++
+					if len(r.Results) != 2 || w.canon(lit, r.Results[0]) != val || !isNilConst(w.canon(lit, r.Results[1])) {
+						good = false
+					}
 				}
 			}
 		}
